@@ -25,6 +25,8 @@ class LoopMixin:
         return out
 
     def type_of_value(self, v):
+        if isinstance(v, VOpt):
+            return ("opt", v.ty)
         if isinstance(v, VInt):
             return ("int",)
         if isinstance(v, VReal):
@@ -204,6 +206,13 @@ class LoopMixin:
             self.loop_heads.append((dict(self.visible_locals(frame)), run.snapshot()))
             self.iter_call_start.append(len(run.calls))
             how = "normal"
+            kept = {}
+            for p_ in spec.get("keep", []):
+                # `keep` (not havocked at the head) is a claim that a continuing iteration leaves the path alone: checked below
+                try:
+                    kept[p_] = (self.eval(ast.parse(p_, mode="eval").body, frame), set(run.written))
+                except (E.Unsupported, E.PyExc, SyntaxError):
+                    pass
             try:
                 try:
                     self.exec_block(node.body, frame)
@@ -211,6 +220,14 @@ class LoopMixin:
                     how = "continue"
                 except E._Break:
                     how = "break"
+                except E._Return:
+                    if spec.get("exhaustive"):
+                        self.ctx.oblige(self, "post", f"{header}:exhaustive", z3.BoolVal(False), "the loop body returns: later elements are never visited",
+                                        False, text="the loop visits every element (no break / return out of the body)")
+                    raise
+                if spec.get("exhaustive"):
+                    self.ctx.oblige(self, "post", f"{header}:exhaustive", z3.BoolVal(how != "break"), "the loop body breaks: later elements are never visited",
+                                    False, text="the loop visits every element (no break / return out of the body)")
                 prop_step = set(spec.get("property_level", []))
                 for lbl, ex in spec.get("step", {}).items():
                     self.ctx.oblige(self, "post" if lbl in prop_step else "loop-step", f"{header}:{lbl}",
@@ -221,6 +238,18 @@ class LoopMixin:
                 self.iter_call_start.pop()
             if how == "break":
                 return
+            for p_, (v0_, w0_) in kept.items():
+                v1_ = self.eval(ast.parse(p_, mode="eval").body, frame)
+                if isinstance(v0_, VRef):
+                    same = isinstance(v1_, VRef) and run.base_oid(v1_.oid) == run.base_oid(v0_.oid) and \
+                        (run.base_oid(v0_.oid) in w0_ or run.base_oid(v0_.oid) not in run.written)
+                    self.ctx.oblige(self, "loop-step", f"{header}:keep[{p_}]", z3.BoolVal(bool(same)), "kept path rebound or mutated by a continuing iteration", True,
+                                    text=f"{p_} is not changed by an iteration that continues")
+                else:
+                    try:
+                        self.ctx.oblige(self, "loop-step", f"{header}:keep[{p_}]", self.eq(v1_, v0_), "", True, text=f"{p_} is not changed by an iteration that continues")
+                    except E.Unsupported:
+                        self.ctx.oblige(self, "loop-step", f"{header}:keep[{p_}]", z3.BoolVal(False), "cannot compare", True, text=p_)
             plevel = set(spec.get("property_level", []))
             for i, inv in enumerate(invs):
                 self.ctx.oblige(self, "always" if inv in plevel else "loop-step", f"{header}#{i}",
@@ -378,6 +407,7 @@ class LoopMixin:
         rel, qual = cc.target.split("::")
         fnode, ci = self.repo.function_source(rel, qual)
         dframe = E.Frame(rel, ci)
+        recv = self.force(recv)
         locs = self.bind_args(fnode, [recv] + list(args), kwargs, None, dframe)
         for g_, t_ in cc.ghost_params.items():
             # a universally quantified ghost parameter of the callee is instantiated with the caller's ghost of the same name
@@ -423,6 +453,9 @@ class LoopMixin:
                 raise E.PyExc(exc, f"callee {qual}")
             rt = parse_type(cc.returns) if cc.returns else self.ann_type(fnode.returns, rel)
             result = self.fresh(rt, f"ret@{tag}")
+            if isinstance(result, VOpt) and result.ty[0] in ("obj", "list", "dict", "set") and \
+                    any("result is" in ex_ and "result is not None" != ex_.strip() for ex_ in list(cc.ensures.values()) + list(cc.always.values())):
+                result = self.force(result)      # identity conjuncts (`result is <obj>`) bind the reference: needs the case split now
             run.contract_calls.append({"name": qual, "outcome": "return", "value": result, "args": list(args)})
             extra = {"result": result, "exc": NONE}
             for lbl, ex in list(cc.ensures.items()) + list(cc.always.items()):
